@@ -309,6 +309,23 @@ def p_vectors(rng):
     return "vectors", src, []
 
 
+def tower_operand(rng):
+    t = rng.below(7)
+    if t == 0:
+        return str(rng.choice([0, 1, -1, 7, -12345, (1 << 61) - 1]))
+    if t == 1:
+        return str(bigint(rng, rng.choice([64, 100, 300])))
+    if t == 2:
+        return "%d/%d" % (rng.range(-50, 50), rng.choice([3, 7, 11, 64]))
+    if t == 3:
+        return "%d/%d" % (bigint(rng, 90), abs(bigint(rng, 80)) | 1)
+    if t == 4:
+        return rng.choice(["2.5", "-0.75", "1e10", "0.1", "-3.0"])
+    if t == 5:
+        return rng.choice(["1+2i", "-3-4i", "1.5-2.5i", "1/2+3/4i", "0.5+1/3i", "+i"])
+    return "%d%+di" % (bigint(rng, 70), rng.range(1, 9))
+
+
 def p_numbers(rng):
     lines = []
     for _ in range(rng.range(5, 25)):
@@ -326,7 +343,40 @@ def p_numbers(rng):
         else:
             lines.append("(write (map (lambda (x) (* x x x)) (list %d 1/7 2.5)))" % bigint(rng, 90))
         lines.append("(newline)")
+    # the mixed-type dispatch of the generic operators: every pair of representations (fixnum, bignum, ratio with small / bignum parts, flonum,
+    # complex with exact / inexact / ratio parts) converts one operand through freshly allocated temporaries
+    for _ in range(rng.range(4, 16)):
+        a, b = tower_operand(rng), tower_operand(rng)
+        op = rng.choice(["+", "-", "*", "/", "-", "="])
+        if op == "/":
+            lines.append("(write (if (zero? %s) 'z (/ %s %s)))" % (b, a, b))
+        else:
+            lines.append("(write (%s %s %s))" % (op, a, b))
+        lines.append("(newline)")
     return "numbers", "\n".join(lines), []
+
+
+def p_tower(rng):
+    """a handful of generic operations on mixed number representations and nothing else: few enough allocations that a schedule with a
+    collection at every one of them covers the whole program (each conversion of an operand makes temporaries that only C locals hold)"""
+    lines = []
+    for _ in range(rng.range(3, 9)):
+        a, b = tower_operand(rng), tower_operand(rng)
+        op = rng.choice(["+", "-", "*", "/", "-", "=", "<", "expt", "exact->inexact", "number->string", "sqrt"])
+        if op == "/":
+            lines.append("(write (if (zero? %s) 'z (/ %s %s)))" % (b, a, b))
+        elif op == "<":
+            lines.append("(write (if (and (real? %s) (real? %s)) (< %s %s) 'c))" % (a, b, a, b))
+        elif op == "expt":
+            lines.append("(write (expt %s %d))" % (a, rng.range(-3, 6)))
+        elif op in ("exact->inexact", "sqrt"):
+            lines.append("(write (%s %s))" % (op, a))
+        elif op == "number->string":
+            lines.append("(write (string->number (number->string %s)))" % a)
+        else:
+            lines.append("(write (%s %s %s))" % (op, a, b))
+        lines.append("(newline)")
+    return "tower", "\n".join(lines), []
 
 
 def p_compile(rng):
@@ -350,7 +400,7 @@ def p_compile(rng):
 
 FAMILIES = [
     (p_reader_writer, 3), (p_strings, 3), (p_bignum, 3), (p_hash, 3), (p_sort, 2), (p_bits, 2), (p_json, 2),
-    (p_ports, 2), (p_control, 3), (p_deep, 4), (p_threads, 2), (p_vectors, 2), (p_numbers, 2), (p_compile, 2),
+    (p_ports, 2), (p_control, 3), (p_deep, 4), (p_threads, 2), (p_vectors, 2), (p_numbers, 2), (p_tower, 3), (p_compile, 2),
 ]
 
 ALL_IMPORTS = ["(scheme char)", "(srfi 1)", "(srfi 18)", "(srfi 69)", "(srfi 95)", "(srfi 151)", "(chibi json)"]
